@@ -323,9 +323,9 @@ func (s *Scenario) buildDoc(rng *rand.Rand) *genesis.Document {
 
 	reg := registry.Genesis{
 		Parameters: registry.ConsensusParameters{
-			DebugAllowTestRuntimes:        true,
-			GasCosts:                      registry.DefaultGasCosts,
-			MaxNodeExpiration:             beacon.EpochTime(p.MaxNodeExp),
+			DebugAllowTestRuntimes: true,
+			GasCosts:               registry.DefaultGasCosts,
+			MaxNodeExpiration:      beacon.EpochTime(p.MaxNodeExp),
 			EnableRuntimeGovernanceModels: map[registry.RuntimeGovernanceModel]bool{
 				registry.GovernanceEntity:  true,
 				registry.GovernanceRuntime: true,
